@@ -230,7 +230,12 @@ func selectEntity(ctx context.Context, scope *ReferenceScope, expr parser.QueryE
 
 func selectSetEntity(ctx context.Context, scope *ReferenceScope, expr parser.QueryExpression, forUpdate bool) (*View, error) {
 	if subquery, ok := expr.(parser.Subquery); ok {
-		return Select(ctx, scope, subquery.Query)
+		query := subquery.Query
+		if forUpdate {
+			// An operand written in parentheses belongs to the query that the FOR UPDATE clause closes.
+			query.Context = parser.Token{Token: parser.UPDATE, Literal: parser.TokenLiteral(parser.UPDATE)}
+		}
+		return Select(ctx, scope, query)
 	}
 
 	view, err := selectEntity(ctx, scope, expr, forUpdate)
